@@ -340,12 +340,16 @@ pub fn run_table_case(case: &TableCase, check13: bool, check14: bool) -> Result<
 
 fn entries_strategy(max_keys: usize) -> impl Strategy<Value = Vec<Entry>> {
     let per_key = prop::collection::vec((any::<u32>(), prop::bool::weighted(0.8), prop_oneof![
-        10 => 0u32..40, 10 => 40u32..300, 1 => 4000u32..6000]), 1..6);
-    (subsequence(key_pool(), 1..=max_keys), prop::collection::vec(per_key, max_keys))
-        .prop_map(|(keys, vers)| {
+        10 => 0u32..40, 10 => 40u32..300, 1 => 4000u32..6000,
+        // lengths at which the length prefix of a block entry grows, and one value of several log-block sizes
+        2 => select(vec![127u32, 128, 129, 255, 256, 257, 16_383, 16_384, 16_385])]), 1..6);
+    // sequence numbers start at 1, above 2^32, or just below the largest sequence number (2^56 - 1)
+    let base = prop_oneof![6 => Just(0u64), 1 => Just(1u64 << 32), 1 => Just((1u64 << 56) - 5002)];
+    (subsequence(key_pool(), 1..=max_keys), prop::collection::vec(per_key, max_keys), base)
+        .prop_map(|(keys, vers, base)| {
             let mut out = vec![];
             for (k, vs) in keys.iter().zip(vers.into_iter()) {
-                let mut seqs: Vec<(u64, bool, u32)> = vs.into_iter().map(|(s, p, l)| ((s as u64 % 5000) + 1, p, l)).collect();
+                let mut seqs: Vec<(u64, bool, u32)> = vs.into_iter().map(|(s, p, l)| (base + (s as u64 % 5000) + 1, p, l)).collect();
                 seqs.sort_by(|a, b| b.0.cmp(&a.0));
                 seqs.dedup_by_key(|x| x.0);
                 for (s, p, l) in seqs {
